@@ -1,18 +1,90 @@
 package staking
 
 import (
+	"fmt"
+
+	"0chain.net/chaincore/block"
+	"0chain.net/chaincore/chain"
+	"0chain.net/chaincore/transaction"
+	"0chain.net/miner"
+
 	"verif/worlds/ledger"
 )
 
-// onceChecker is the block-level "once per round" oracle of C22 (see once_real.go).
+// onceChecker is the block-level "once per round" oracle of C22. The miner
+// contract does not refuse a second payFees of the generator in the same round
+// (it only compares the sender with the generator and the input round with the
+// block round); the rule is enforced where blocks are verified:
+// miner.Chain.ValidateTransactions rejects a block that carries the same
+// built-in transaction twice (anchor miner/protocol_block.go). So for every
+// block of the run that holds a signed fee payment the shipped
+// ValidateTransactions is called on two derived blocks made of real, correctly
+// signed transactions of that round only:
+//
+//	{one fee payment}            must be accepted (otherwise the probe is inconclusive)
+//	{that one and a second one}  must be refused
+//
+// The second payment is another payFees the run really applied in that round
+// when there is one with the same creation date, otherwise a payFees signed by
+// the same generator with the next nonce.
 type onceChecker struct {
-	impl func(o *OracleC22, w *ledger.World, bc *ledger.BlockCtx)
+	mc *miner.Chain
 }
 
 func newOnceChecker() *onceChecker { return &onceChecker{} }
 
+func (c *onceChecker) chainFor(w *ledger.World) *miner.Chain {
+	if c.mc == nil {
+		c2 := chain.NewChainFromConfig()
+		miner.SetupMinerChain(c2)
+		c.mc = miner.GetMinerChain()
+	}
+	return c.mc
+}
+
 func (c *onceChecker) afterBlock(o *OracleC22, w *ledger.World, bc *ledger.BlockCtx) {
-	if c.impl != nil {
-		c.impl(o, w, bc)
+	var pf []*transaction.Transaction
+	for _, t := range bc.B.Txns {
+		if classify(t) == fnPayFees && t.Signature != "" && t.ClientID == bc.B.MinerID {
+			pf = append(pf, t)
+		}
+	}
+	if len(pf) == 0 {
+		return
+	}
+	mc := c.chainFor(w)
+	validate := func(txns ...*transaction.Transaction) error {
+		nb := block.NewBlock(w.C.GetKey(), bc.B.Round)
+		nb.MinerID = bc.B.MinerID
+		nb.CreationDate = txns[0].CreationDate
+		nb.Txns = txns
+		nb.Hash = bc.B.Hash
+		return mc.ValidateTransactions(w.Ctx, nb)
+	}
+	first := pf[0]
+	if err := validate(first); err != nil {
+		w.Tr.Probe("once_per_round_inconclusive")
+		w.Tr.Event("once: single fee payment refused: %v", err)
+		return
+	}
+	var second *transaction.Transaction
+	for _, t := range pf[1:] {
+		if t.CreationDate == first.CreationDate {
+			second = t
+			w.Tr.Probe("once_per_round_checked_with_applied_second_payment")
+			break
+		}
+	}
+	if second == nil {
+		second = w.MakeTxn(ledger.TxnSpec{From: first.ClientID, To: ledger.AddrMiner, Type: transaction.TxnTypeSmartContract, Name: "payFees",
+			Raw: fmt.Sprintf(`{"round":%d}`, bc.B.Round), Nonce: first.Nonce + 1, Time: first.CreationDate})
+		w.SignTxn(second, bc.Miner.Client)
+		second.OutputHash = second.ComputeOutputHash()
+	}
+	err := validate(first, second)
+	w.Tr.Event("once: round=%d two fee payments refused=%v", bc.B.Round, err != nil)
+	w.Tr.Probe("once_per_round_checked")
+	if err == nil {
+		o.viol(w, "once", "block/two-fee-payments-in-one-block-pass-validation", fmt.Sprintf("ValidateTransactions accepted a block of round %d with two payFees of the generator", bc.B.Round))
 	}
 }
